@@ -176,6 +176,66 @@ fn damage_campaign(lang: &Lang, alphabet: Alphabet, sizes: &[(usize, usize)], re
     rep.bounds.push(format!("{name}: every single-point damage of every rendering (all call-form subsets) of {} trees (sizes {:?}) in language {}: complete in {:.1}s", space.total, sizes, lang.name, t0.elapsed().as_secs_f64()));
 }
 
+/// malformed texts whose counts pass 127 / 255 / 511 (/ 65535): parenthesis surplus, operand
+/// surplus and operator surplus that are multiples of 256 away from a well-formed count, damage
+/// behind the 255th token
+fn large_count_family(langs: &[&Lang], thorough: bool, rep: &mut Report) {
+    let mut texts: Vec<(&'static str, String)> = Vec::new();
+    let mut ns = vec![1usize, 127, 128, 129, 254, 255, 256, 257, 258, 511, 512, 513];
+    if thorough {
+        ns.extend([1023, 1024, 1025, 65535, 65536, 65537]);
+    }
+    for &n in &ns {
+        let mut ms = vec![n + 1, n + 256, n + 255, n + 257];
+        if n > 0 {
+            ms.extend([n - 1, 0]);
+        }
+        for d in [255usize, 256, 257] {
+            if n >= d {
+                ms.push(n - d);
+            }
+        }
+        ms.sort();
+        ms.dedup();
+        if n <= 1025 {
+            for m in ms {
+                if m != n {
+                    texts.push(("parenthesis-surplus", format!("{}x{}", "(".repeat(n), ")".repeat(m))));
+                    texts.push(("parenthesis-surplus", format!("{}x+1{}*2", "(".repeat(n), ")".repeat(m))));
+                }
+            }
+        }
+        // n operands
+        let chain = |k: usize| (0..k).map(|_| "x").collect::<Vec<_>>().join("+");
+        if n >= 2 {
+            texts.push(("operator-at-the-end", format!("{}+", chain(n))));
+            texts.push(("operand-surplus", format!("{} x", chain(n))));
+            texts.push(("operand-surplus", format!("x {}", chain(n))));
+            texts.push(("operand-surplus", format!("{} x {}", chain(n / 2), chain(n - n / 2))));
+            texts.push(("illegal-character", format!("{}+\u{a7}", chain(n))));
+            texts.push(("illegal-character", format!("{}\u{a7}+x", chain(n))));
+            // operands exceed operators by n (0 operators), by 1 + n, operators exceed operands
+            texts.push(("operand-surplus", vec!["x"; n].join(" ")));
+            texts.push(("operand-surplus", format!("{} {}", chain(3), vec!["x"; n].join(" "))));
+            texts.push(("operator-surplus", format!("x{}x", "*".repeat(n))));
+        }
+    }
+    let langs: Vec<&Lang> = langs.to_vec();
+    let total = (texts.len() * langs.len()) as u64;
+    let accs = par_ranges(total, 4, install_panic_hook, |st, en, acc| {
+        for i in st..en {
+            let lang = langs[(i as usize) % langs.len()];
+            let (kind, text) = &texts[(i as usize) / langs.len()];
+            set_table(&lang.table);
+            judge_text(lang, text, kind, acc);
+        }
+    });
+    for a in accs {
+        rep.absorb(a);
+    }
+    rep.bounds.push(format!("large-count family: {} malformed texts (parenthesis / operand / operator surplus and damage positions around 127, 255, 511{} and multiples of 256 away from a well-formed count) x {} languages: complete", texts.len(), if thorough { ", 1023, 65535" } else { "" }, langs.len()));
+}
+
 fn ops(t: &Table, names: &[&str]) -> Vec<u16> {
     names.iter().map(|n| t.find(n).unwrap_or_else(|| panic!("no op {n}"))).collect()
 }
@@ -228,6 +288,7 @@ pub fn run(tier: Tier) -> i32 {
         }
         rep.absorb(acc);
     }
+    large_count_family(&[&ls, &lf, &lv], thorough, &mut rep);
     // all token strings, symbolic language
     let l = if thorough { 6 } else { 5 };
     let mut toks = std_tokens();
